@@ -384,6 +384,11 @@ fn nesting_towers() -> Vec<(String, String)> {
     ("functions", "<functionDefinition><formalParameter name=\"p\"/>", "</functionDefinition>"),
     ("invocations", "<invocation><literalExpression><text>f</text></literalExpression><binding><parameter name=\"p\"/>", "</binding></invocation>"),
     ("result-entries", "<context><contextEntry>", "</contextEntry></context>"),
+    // every level inside an information item: the variable of a context entry, the column of a relation, the formal
+    // parameter of a function definition
+    ("contexts-in-variables", "<context><contextEntry><variable name=\"v\">", "</variable></contextEntry></context>"),
+    ("relations-in-columns", "<relation><column name=\"c\">", "</column></relation>"),
+    ("functions-in-parameters", "<functionDefinition><formalParameter name=\"p\">", "</formalParameter></functionDefinition>"),
   ];
   for (kind, open, close) in kinds {
     for depth in [10usize, 100, 200, 1000, 5000, 20000, 100000] {
@@ -399,6 +404,19 @@ fn nesting_towers() -> Vec<(String, String)> {
       s.push_str(tail);
       out.push((format!("{}-{}", kind, depth), s));
     }
+  }
+  // item components in item components
+  for depth in [10usize, 100, 200, 1000, 5000, 20000, 100000] {
+    let mut s = String::from("<?xml version=\"1.0\" encoding=\"UTF-8\"?>\n<definitions namespace=\"https://verif/deep\" name=\"deep\" id=\"m\" xmlns=\"https://www.omg.org/spec/DMN/20191111/MODEL/\">\n<itemDefinition name=\"t\">");
+    for _ in 0..depth {
+      s.push_str("<itemComponent name=\"c\">");
+    }
+    s.push_str("<typeRef>string</typeRef>");
+    for _ in 0..depth {
+      s.push_str("</itemComponent>");
+    }
+    s.push_str("</itemDefinition><inputData name=\"In\" id=\"i\"><variable name=\"In\" typeRef=\"t\"/></inputData></definitions>");
+    out.push((format!("item-components-{}", depth), s));
   }
   out
 }
